@@ -106,7 +106,7 @@ def locate_slice(values, start, stop, step, issorted=False):
     # bbox-like slices only make sense for monotonically varying axes
     if not issorted:
         monotonic = is_monotonic_equal(values)
-        issorted = monotonic and values[-1] >= values[0]
+        issorted = monotonic and (values.size == 0 or values[-1] >= values[0])
     else:
         monotonic = True
 
